@@ -14,9 +14,10 @@ LEVEL_TEXT = ('Decides clauses C09-a..f: in every method of the URL-encoded Seri
               'never reaches the output raw; the separators the writer emits are exactly the bytes the reader dispatches on; None/unit are written as the empty '
               'section and read back by testing for it; for every serde data-model kind the serializer supports, the matching deserialize_* is not an unconditional '
               'error; deserialize_char accepts exactly the decoded texts of one Unicode scalar value (decided by the char iterator, not by a byte length); the '
-              'sequence reader steps over the `,` the writer puts between elements, raises no `separator missing` error on the path that found the separator, and '
-              'decodes each element with the decoder of scalar values; from deserialize_ignored_any no decoding or validating function is reachable (the value of an '
-              'unknown key is skipped raw, so it cannot influence the outcome); the `,` between sequence elements is decided by position, not by a test of the text '
+              'sequence reader steps over the `,` the writer puts between elements, raises no `separator missing` error on the path that found the separator, steps '
+              "over a `,` only as the lead-in of the element that follows it (before that element's extent is computed, so a trailing empty element is not lost), and"
+              ' decodes each element with the decoder of scalar values; from deserialize_ignored_any no decoding or validating function is reachable (the value of an'
+              ' unknown key is skipped raw, so it cannot influence the outcome); the `,` between sequence elements is decided by position, not by a test of the text '
               'written so far. Decides these clauses, not round-trip equality for all values (e.g. the comma-separated sequence reader).')
 
 SER = r"ohkami_lib::serde_urlencoded::ser::URLEncodedSerializer"
@@ -42,10 +43,16 @@ def ser_methods(prog):
     return [f for f in prog.fns.values() if f.crate == "ohkami_lib" and f.trait and f.trait.startswith("serde_core::ser::") and f.self_ty and SER in f.self_ty]
 
 
+def ser_helpers(prog):
+    """the serializer's own (inherent) functions: shared pieces of the serde methods"""
+    return [f for f in prog.fns.values() if f.crate == "ohkami_lib" and not f.trait and f.self_ty and SER in f.self_ty and f.kind == "AssocFn"]
+
+
 def c09a(ck, prog):
     R = "C09-a TAINT serializer"
     fs = ser_methods(prog)
     ck.floor(R, "serializer methods", len(fs), 40)
+    fs = fs + ser_helpers(prog)
     n = 0
     text_params = 0
     for f in fs:
@@ -96,10 +103,12 @@ def c09a(ck, prog):
                     how = "result of %s" % cc.callee
             elif last[0] == "arg":
                 how = "the %s parameter itself, unencoded" % f.locals[last[1]]
-            ck.ob(R, "%s:%s#%d" % (f.trait.rsplit("::", 1)[-1] + "::" + f.name, c.name, c.bb), verdict, f.loc(c.sp),
-                  "" if verdict else "%s::%s appends %s to the output: reserved characters (& = , %% +) in it change the structure of the encoded form and it does not decode back" % (f.trait.rsplit("::", 1)[-1], f.name, how),
+            tn = (f.trait or "URLEncodedSerializer").rsplit("::", 1)[-1]
+            ck.ob(R, "%s:%s#%d" % (tn + "::" + f.name, c.name, c.bb), verdict, f.loc(c.sp),
+                  "" if verdict else "%s::%s appends %s to the output: reserved characters (& = , %% +) in it change the structure of the encoded form and it does not decode back" % (tn, f.name, how),
                   how="appends " + how)
-    ck.floor(R, "output emissions", n, 23)
+    # (sites, not behaviours: shared helpers make them fewer)
+    ck.floor(R, "output emissions", n, 10)
     ck.stat("text_parameters", text_params)
 
 
@@ -119,7 +128,7 @@ DE_OF = {"none": "option", "some": "option", "unit_variant": "enum", "str": "str
 
 def c09b(ck, prog):
     R = "C09-b TABLE grammar"
-    fs = ser_methods(prog)
+    fs = ser_methods(prog) + ser_helpers(prog)
     pushed = set()
     for f in fs:
         for c in f.calls_to(r"^alloc::string::String::push$"):
@@ -262,10 +271,23 @@ def c09d(ck, prog):
     # the separator is consumed: after the first element the section kept for the next call is advanced past the `,`
     stores = decision.field_stores(f, "section")
     adv = [bi for bi, st, agg in stores if re.search(r"split_first|get_unchecked|index\(|split_at\(.*const 1|strip_prefix", decision.describe_deep(f, st["r"][1] if st["r"][0] == "use" else st["p"], 4))]
-    ok = len(stores) >= 2 and bool(adv)
+    ok = bool(adv)
     ck.ob(R, "reader:separator-consumed", ok, f.loc(None),
           "" if ok else "no assignment to `section` steps over the `,` that ended the previous element (%d assignment(s) to `section`): the second element would start with the separator" % len(stores),
-          how="section = rest (after split_first / [1..]) on the non-first path")
+          how="section = rest (after split_first / [1..] / strip_prefix) on the non-first path")
+    # ... and it is stepped over *before* the extent of the element to produce is determined, i.e. as the lead-in of the
+    # element that follows it: a reader that swallows the `,` together with the element before it cannot tell `a,` (two
+    # elements, the second empty) from `a` when it is called again
+    extent = [c for c in f.calls() if c.name in ("position", "split_at", "split_at_checked", "split_once", "splitn", "find", "memchr", "split") and f.dominates(c.bb, des[0].bb)]
+    if adv and extent:
+        first_extent = min(extent, key=lambda c: len(f.dom_chain(c.bb)))
+        late = [bi for bi in adv if not f.dominates(bi, first_extent.bb) and bi in f.reachable_from(first_extent.bb)]
+        ok = not late
+        ck.ob(R, "reader:separator-leads-the-next-element", ok, f.loc(f.blocks[late[0]]["t"].get("sp")) if late else f.loc(first_extent.sp),
+              "" if ok else "the `,` is stepped over after the extent of the current element has been taken (it is consumed together with the element it follows): when the input ends in `,` the reader "
+              "finds nothing left on the next call and reports the end of the sequence -- a trailing empty element (`tags=a,`) is lost", how="every step over a `,` precedes the computation of the element's extent")
+    else:
+        ck.ob(R, "reader:separator-leads-the-next-element", False, f.loc(None), "cannot find where the element's extent is computed (position / split_at before seed.deserialize)")
 
 
 def c09e(ck, prog):
@@ -300,6 +322,8 @@ def c09f(ck, prog):
             continue
         if not re.search(r"Serialize(Seq|Tuple|TupleStruct|TupleVariant)$", f.trait or ""):
             continue
+        helper_keys = {h.key for h in ser_helpers(prog)}
+        f = prog.inlined(f, 2, lambda caller, callee: callee.key in helper_keys)
         for c in f.calls():
             if c.name != "push" or len(c.args) < 2:
                 continue
